@@ -23,6 +23,9 @@ def backends : List BackendT := [{ name := "base", supported := ["euler", "heun"
   { name := "julia", supported := ["euler", "heun", "scipy", "julia_ode", "julia_dde"], validatesFirst := true, branches := [("?'julia'insolver", "?")], fallthrough := "?results", hasOwnSolve := true, sparseJac := true, edgeDelayBuffer := true },
   { name := "matlab", supported := ["euler", "heun", "scipy"], validatesFirst := true, branches := [], fallthrough := "super", hasOwnSolve := true, sparseJac := true, edgeDelayBuffer := true }]
 def vectorizeForbiddenBackends : List String := ["fortran"]
+def autoBlockedLo : Nat := 10
+def autoBlockedHi : Nat := 15
+def autoTimeSlot : Nat := 14
 def disallowedNames : List String := ["y", "dy", "source_idx", "target_idx", "pi", "I", "E", "S", "Q", "O", "N", "oo", "zoo", "nan", "beta", "gamma", "Beta", "Gamma", "exp", "log", "sin", "cos", "tan", "cot", "sec", "csc", "sinh", "cosh", "tanh", "sqrt", "abs"]
 def disallowedNameParts : List String := ["_buffer", "_delays", "_maxdelay", "_idx", "_hist"]
 def opCacheKeyIncludesDefinition : Bool := true
